@@ -2,7 +2,7 @@ SPECIFICATION Spec
 CONSTANTS
   NK = 4
   Vals = {1, 2}
-  H = 4
+  Hs = {1, 2, 3, 4}
   ZeroStart = FALSE
 INVARIANT LevelOK
 PROPERTY RefinesMap
